@@ -22,7 +22,7 @@ func runC11(r *core.Run) {
 	p := r.Prog
 	r.Rule("R11.1", "special packages are intercepted once, only after a complete parse, before delivery", 2, true)
 	r.Rule("R11.2", "delivery only when the special-package handler passes the package", 1, false)
-	r.Rule("R11.3", "handleSpecialPackage: env changes applied/reported once per member and never delivered; info EED dropped, others reported once and delivered", 5, false)
+	r.Rule("R11.3", "handleSpecialPackage: env changes applied/reported once per member and never delivered; info EED dropped, others reported once and delivered", 6, false)
 	r.Rule("R11.4", "hook lists: one loop, each hook once, one mutex, nil rejected", 6, false)
 	r.Rule("R11.5", "NextPackageUntil aggregates EED packages into the error it returns", 4, false)
 	r.Rule("R11.6", "ENVCHANGE members are parsed into fresh structs", 1, false)
@@ -86,7 +86,9 @@ func runC11(r *core.Run) {
 		}
 	}
 
+	onePerAttempt(r, "R11.1")
 	c11Handler(r, hsp)
+	packSizeEveryMember(r, "R11.3")
 	c11Hooks(r)
 	c11Until(r)
 
@@ -616,4 +618,54 @@ func c11Until(r *core.Run) {
 		}
 	}
 	r.Check(okIs, "R11.5", "EEDError.Is delegates to the wrapped error", is.Pos(), "errors.Is(err.WrappedError, other)", "EEDError.Is does not delegate to errors.Is(WrappedError, target): the aggregated error no longer matches the callback's error")
+}
+
+// packSizeEveryMember: every iteration of handleSpecialPackage's member loop
+// evaluates `member.Type == TDS_ENV_PACKSIZE` (no shortcut skips a member
+// before the packet size is applied), and the PACKSIZE edge reaches the
+// store or an error return.
+func packSizeEveryMember(r *core.Run, rule string) {
+	p := r.Prog
+	hsp := p.Func("tds", "Channel", "handleSpecialPackage")
+	fType := p.Field("tds", "EnvChangePackageField", "Type")
+	cPack := constOf(p, "tds", "TDS_ENV_PACKSIZE")
+	var test *ssa.If
+	for _, b := range hsp.Blocks {
+		if iff, ok := b.Instrs[len(b.Instrs)-1].(*ssa.If); ok {
+			if bo, ok := iff.Cond.(*ssa.BinOp); ok {
+				f, _ := core.FieldLoad(core.Strip(bo.X))
+				c, isC := bo.Y.(*ssa.Const)
+				if f == fType && isC && c.Value != nil && constEq(c.Value, cPack) {
+					test = iff
+				}
+			}
+		}
+	}
+	key := "handleSpecialPackage: every member is tested for PACKSIZE"
+	if test == nil {
+		r.Bad(rule, key, hsp.Pos(), "no test of member.Type against TDS_ENV_PACKSIZE: the announced packet size is never applied")
+		return
+	}
+	h, loop := core.InnermostLoop(test.Block())
+	if loop == nil {
+		r.Bad(rule, key, test.Pos(), "the PACKSIZE test is not inside the member loop")
+		return
+	}
+	ok := true
+	core.EnumPaths(h, func(b *ssa.BasicBlock) bool { return b == h }, loop, 2000, func(pa core.Path, ended bool) {
+		if !ended {
+			return
+		}
+		saw := false
+		for _, c := range pa.Conds {
+			if c.If == test {
+				saw = true
+			}
+		}
+		// the header's own "more members?" decision is not an iteration
+		if len(pa.Blocks) > 2 && !saw {
+			ok = false
+		}
+	})
+	r.Check(ok, rule, key, test.Pos(), "no path through an iteration bypasses the PACKSIZE test", "an iteration of the member loop can complete without testing the member for TDS_ENV_PACKSIZE (a shortcut skips members): a packet size the server announced is not applied and the connection keeps packetising with the old size")
 }
